@@ -227,6 +227,39 @@ func main() {
 		}
 	}
 	dfs(nil)
+	// many branches (binary search over more than a handful of names): 14 names added in three orders,
+	// then every second one deleted, one renamed, all queried after every call
+	if shard == 0 {
+		many := []string{"m01", "b", "zz", "Ab", "a", "k.lock", "k", "C", "c", "m10", "m02", "y-1", "y_1", "q"}
+		saved := names
+		names = append([]string{"main"}, many...)
+		orders := [][]string{many, nil, nil}
+		for i := len(many) - 1; i >= 0; i-- {
+			orders[1] = append(orders[1], many[i])
+		}
+		for i := 0; i < len(many); i += 2 {
+			orders[2] = append(orders[2], many[i])
+		}
+		for i := 1; i < len(many); i += 2 {
+			orders[2] = append(orders[2], many[i])
+		}
+		for _, ord := range orders {
+			var seq []op
+			for _, nm := range ord {
+				seq = append(seq, op{"add", nm})
+			}
+			for i, nm := range ord {
+				if i%2 == 0 {
+					seq = append(seq, op{"delete", nm})
+				} else {
+					seq = append(seq, op{"update", nm})
+				}
+			}
+			seq = append(seq, op{"switch", ord[1]}, op{"rename", "renamed"}, op{"add", ord[0]}, op{"switch", ord[0]}, op{"delete", "renamed"})
+			run(seq, shard)
+		}
+		names = saved
+	}
 	out.Encode(map[string]interface{}{"summary": true, "evaluations": evals, "distinct": len(distinct), "violations": nviol, "exhaustive": true,
 		"samples": []string{"add ab; add a; rename a.b; delete main  (one live Refs+Head instance; every name queried after every call)"}})
 }
